@@ -174,6 +174,25 @@ Example reuse_nonvacuous :
   thissystem_after [LC [BK false 0] true None; LC [BK false 0] false None; LC [BK false (-1)] false None] = true.
 Proof. vm_compute. auto. Qed.
 
+(* a duplicate (of a duplicate ...) or an adopted copy behaves as its source: same hooks, same answers, same
+   hook trace, for every call, every OS and every hook configuration - in particular the derivation of a
+   topology that is not this system still has the dummy hooks (dummy_hooks_total applies to it) *)
+Theorem dup_preserves_hook_selection :
+  forall W os heap present T ds a (w : W),
+  run W os heap present (fold_left derive ds T) a w = run W os heap present T a w /\
+  t_thissystem (fold_left derive ds T) = t_thissystem T /\
+  (forall h, installed present (fold_left derive ds T) h = installed present T h).
+Proof. intros. rewrite derive_id. auto. Qed.
+Print Assumptions dup_preserves_hook_selection.
+Example dup_nonvacuous :
+  (* a foreign topology, duplicated twice: still nothing reaches the OS and get_cpubind reports the complete set;
+     a duplication that re-selected hooks on a fresh state would call the OS *)
+  let T := TP (bs_of_N 0x0f) (bs_of_N 0xff) (bs_of_N 1) (bs_of_N 3) [(0, bs_of_N 0x0f); (1, bs_of_N 0xf0)] false in
+  s_trace (snd (run unit os_ok heap_ok all_present (fold_left derive [D_dup; D_dup; D_adopt] T) (A_set_cpubind (bs_of_N 2) HWLOC_CPUBIND_THREAD) tt)) = [] /\
+  a_set (fst (run unit os_ok heap_ok all_present (fold_left derive [D_dup; D_dup] T) (A_get_cpubind 0) tt)) = Some (bs_of_N 0xff) /\
+  List.length (s_trace (snd (run unit os_ok heap_ok all_present (topo_dup_reselecting T) (A_set_cpubind (bs_of_N 2) HWLOC_CPUBIND_THREAD) tt))) = 1%nat.
+Proof. vm_compute. auto. Qed.
+
 Example xml_backend_is_foreign : backends_is_thissystem [BK false 0] false None = false /\ backends_is_thissystem [BK false 0] true None = true.
 Proof. vm_compute. auto. Qed.
 
